@@ -1,4 +1,5 @@
 import LP.Props.C14
+import LP.Props.C14Eval
 #print axioms LP.ounion_mem
 #print axioms LP.ounion_sorted
 #print axioms LP.ounion_flags
@@ -17,3 +18,5 @@ import LP.Props.C14
 #print axioms LP.FSI.C14_observers
 #print axioms LP.FSI.C14_ofList
 #print axioms LP.FSI.C14_pick_partial
+#print axioms LP.FPoly.C14_eval_spec
+#print axioms LP.FPoly.C14_eval_zero_iff
